@@ -4,6 +4,7 @@ import (
 	"encoding/json"
 	"fmt"
 	"math/rand/v2"
+	"os"
 	"sync"
 	"sync/atomic"
 	"testing"
@@ -507,7 +508,7 @@ func runC21Case(t testing.TB, r *kit.Run, idx int, seed [2]uint64) c20Result {
 	} else if rng.IntN(2) == 0 {
 		cfg.StartGap = 1 + rng.IntN(5)
 	}
-	if rng.IntN(100) < 35 {
+	if rng.IntN(100) < 35 && os.Getenv("VERIF_C21_SEQ_ONLY") == "" { // diagnostic knob: sequential hand-over only
 		cfg.FinishMode = "racing"
 		cfg.RaceTrigger = min(rng.IntN(5), 1)
 	}
@@ -637,7 +638,7 @@ func TestC21(t *testing.T) {
 		r.Finish(0)
 		return
 	}
-	n := r.N(2000, 40000)
+	n := r.N(2000, 100000)
 	workers := r.N(2, 6)
 	master := r.Rand("cases")
 	seeds := make([][2]uint64, n)
@@ -680,5 +681,5 @@ func TestC21(t *testing.T) {
 	for k, v := range p.Hits() {
 		r.Count("hook_"+k, int(v))
 	}
-	r.Finish(r.N(800, 15000))
+	r.Finish(r.N(800, 40000))
 }
